@@ -41,39 +41,170 @@ mod verif_kani_array {
         f64::from_bits(kani::any())
     }
 
-    // ---------------- C15: f64 ----------------
-    //@ id=C15.e1.f64.eq_reflexive props=C15 level=complete tier=quick
-    #[kani::proof]
-    fn vk_c15_f64_eq_reflexive() {
-        let a = anyf();
-        assert!(a.array_eq(&a));
-        assert!(a.array_cmp(&a) == Ordering::Equal);
+    // ---------------- C15: element-level laws ----------------
+    fn is_sentinel(x: f64) -> bool {
+        x.to_bits() == EMPTY_NAN.to_bits() || x.to_bits() == TOMBSTONE_NAN.to_bits()
     }
-    //@ id=C15.e1.f64.cmp_antisymmetric props=C15 level=complete tier=quick
-    #[kani::proof]
-    fn vk_c15_f64_cmp_antisymmetric() {
+    fn any_f64_nw() -> f64 {
         let a = anyf();
-        let b = anyf();
-        assert!(a.array_cmp(&b) == b.array_cmp(&a).reverse());
+        kani::assume(!a.has_wildcard());
+        a
+    }
+    fn any_u8() -> u8 {
+        kani::any()
+    }
+    fn any_char_nw() -> char {
+        let c: char = kani::any();
+        kani::assume(!c.has_wildcard());
+        c
+    }
+    fn any_complex() -> Complex {
+        // Complex::has_wildcard() is always false; a component that *is* the wildcard
+        // NaN is excluded here explicitly (the property speaks of wildcard-free values)
+        let c = Complex::new(anyf(), anyf());
+        kani::assume(!c.re.has_wildcard() && !c.im.has_wildcard());
+        c
+    }
+
+    fn laws2<T: ArrayCmp>(a: T, b: T) {
+        // reflexive
+        assert!(a.array_eq(&a) && a.array_cmp(&a) == Ordering::Equal);
+        // symmetric / antisymmetric
         assert!(a.array_eq(&b) == b.array_eq(&a));
+        assert!(a.array_cmp(&b) == b.array_cmp(&a).reverse());
+        // 'equal' of the order coincides with the equivalence
         assert!(a.array_eq(&b) == (a.array_cmp(&b) == Ordering::Equal));
     }
-    //@ id=C15.e1.f64.eq_implies_hash_eq props=C15 level=complete tier=quick
+    fn laws3<T: ArrayCmp>(a: T, b: T, c: T) {
+        if a.array_cmp(&b) != Ordering::Greater && b.array_cmp(&c) != Ordering::Greater {
+            assert!(a.array_cmp(&c) != Ordering::Greater);
+            if a.array_cmp(&b) == Ordering::Less || b.array_cmp(&c) == Ordering::Less {
+                assert!(a.array_cmp(&c) == Ordering::Less);
+            }
+        }
+        if a.array_eq(&b) && b.array_eq(&c) {
+            assert!(a.array_eq(&c));
+        }
+    }
+
+    //@ id=C15.e1.f64.eq_ord_laws props=C15,C09 level=complete tier=quick desc="f64: array_eq reflexive+symmetric, array_cmp antisymmetric, Equal <=> array_eq, for all wildcard-free pairs"
+    #[kani::proof]
+    fn vk_c15_f64_laws2() {
+        laws2(any_f64_nw(), any_f64_nw());
+    }
+    //@ id=C15.e1.f64.transitive props=C15 level=complete tier=thorough budget=3000 desc="f64: array_cmp / array_eq transitive over all wildcard-free triples"
+    #[kani::proof]
+    fn vk_c15_f64_laws3() {
+        laws3(any_f64_nw(), any_f64_nw(), any_f64_nw());
+    }
+    //@ id=C15.e1.u8.eq_ord_laws props=C15,C09 level=complete tier=quick desc="u8 laws (pairs)"
+    #[kani::proof]
+    fn vk_c15_u8_laws2() {
+        laws2(any_u8(), any_u8());
+    }
+    //@ id=C15.e1.u8.transitive props=C15 level=complete tier=quick desc="u8 transitivity"
+    #[kani::proof]
+    fn vk_c15_u8_laws3() {
+        laws3(any_u8(), any_u8(), any_u8());
+    }
+    //@ id=C15.e1.char.eq_ord_laws props=C15,C09 level=complete tier=quick desc="char laws (pairs), wildcard char excluded"
+    #[kani::proof]
+    fn vk_c15_char_laws2() {
+        laws2(any_char_nw(), any_char_nw());
+    }
+    //@ id=C15.e1.char.transitive props=C15 level=complete tier=quick desc="char transitivity"
+    #[kani::proof]
+    fn vk_c15_char_laws3() {
+        laws3(any_char_nw(), any_char_nw(), any_char_nw());
+    }
+    //@ id=C15.e1.complex.eq_ord_laws props=C15,C09 level=complete tier=quick desc="Complex laws (pairs)"
+    #[kani::proof]
+    fn vk_c15_complex_laws2() {
+        laws2(any_complex(), any_complex());
+    }
+    //@ id=C15.e1.complex.transitive props=C15 level=complete tier=thorough budget=3000 desc="Complex transitivity"
+    #[kani::proof]
+    fn vk_c15_complex_laws3() {
+        laws3(any_complex(), any_complex(), any_complex());
+    }
+
+    //@ id=C15.e1.f64.eq_implies_hash_eq props=C15 level=complete tier=quick desc="f64: equal values write identical bytes to the hasher (map-sentinel NaN payloads excluded: see the _sentinels obligation)"
     #[kani::proof]
     fn vk_c15_f64_eq_implies_hash_eq() {
-        let a = anyf();
-        let b = anyf();
-        kani::assume(!a.has_wildcard() && !b.has_wildcard());
+        let a = any_f64_nw();
+        let b = any_f64_nw();
+        kani::assume(!is_sentinel(a) && !is_sentinel(b));
         if a.array_eq(&b) {
             assert!(h(&a).same(&h(&b)));
         }
     }
-    //@ id=C15.e1.f64.canary props=C15 level=complete tier=quick expect=fail
+    //@ id=C15.e1.f64.eq_implies_hash_eq_sentinels props=C15 level=complete tier=quick desc="f64: the same law when one side is the map EMPTY/TOMBSTONE NaN payload and the other a NaN"
+    #[kani::proof]
+    fn vk_c15_f64_eq_implies_hash_eq_sentinels() {
+        let a = any_f64_nw();
+        let b = any_f64_nw();
+        kani::assume(is_sentinel(a) || is_sentinel(b));
+        if a.array_eq(&b) {
+            assert!(h(&a).same(&h(&b)));
+        }
+    }
+    //@ id=C15.e1.u8.eq_implies_hash_eq props=C15 level=complete tier=quick desc="u8: equal values hash alike"
+    #[kani::proof]
+    fn vk_c15_u8_hash() {
+        let a = any_u8();
+        let b = any_u8();
+        if a.array_eq(&b) {
+            assert!(h(&a).same(&h(&b)));
+        }
+    }
+    //@ id=C15.e1.char.eq_implies_hash_eq props=C15 level=complete tier=quick desc="char: equal values hash alike"
+    #[kani::proof]
+    fn vk_c15_char_hash() {
+        let a = any_char_nw();
+        let b = any_char_nw();
+        if a.array_eq(&b) {
+            assert!(h(&a).same(&h(&b)));
+        }
+    }
+    //@ id=C15.e1.complex.eq_implies_hash_eq props=C15 level=complete tier=quick desc="Complex: equal values hash alike (sentinel NaN payloads excluded as for f64)"
+    #[kani::proof]
+    fn vk_c15_complex_hash() {
+        let a = any_complex();
+        let b = any_complex();
+        kani::assume(!is_sentinel(a.re) && !is_sentinel(a.im) && !is_sentinel(b.re) && !is_sentinel(b.im));
+        if a.array_eq(&b) {
+            assert!(h(&a).same(&h(&b)));
+        }
+    }
+    //@ id=C15.e1.mixed.u8_f64_agree props=C15,C06,C09 level=complete tier=quick desc="a byte and the float holding the same number are indistinguishable to equality, order and hash (both argument orders)"
+    #[kani::proof]
+    fn vk_c15_mixed_u8_f64() {
+        let a = any_u8();
+        let y = any_f64_nw();
+        let af = a as f64;
+        assert!(ArrayCmp::<f64>::array_cmp(&a, &y) == af.array_cmp(&y));
+        assert!(ArrayCmp::<u8>::array_cmp(&y, &a) == y.array_cmp(&af));
+        assert!(ArrayCmp::<f64>::array_eq(&a, &y) == af.array_eq(&y));
+        assert!(ArrayCmp::<u8>::array_eq(&y, &a) == y.array_eq(&af));
+        assert!(h(&a).same(&h(&af)));
+        let b = any_u8();
+        assert!(a.array_cmp(&b) == af.array_cmp(&(b as f64)));
+    }
+    //@ id=C15.e1.reach props=C15 level=complete tier=quick expect=fail desc="vacuity guard: wildcard-free generators are satisfiable"
+    #[kani::proof]
+    fn vk_c15_reach() {
+        let _a = any_f64_nw();
+        let _c = any_char_nw();
+        let _z = any_complex();
+        assert!(false);
+    }
+    //@ id=C15.e1.canary props=C15 level=complete tier=quick expect=fail desc="deliberately false: NaN is the least float"
     #[kani::proof]
     fn vk_c15_f64_canary() {
         let a = anyf();
         let b = anyf();
-        assert!(a.array_cmp(&b) != Ordering::Less);
+        kani::assume(a.is_nan() && !b.is_nan());
+        assert!(a.array_cmp(&b) == Ordering::Less);
     }
 
     // ---------------- C17: F64Rep ----------------
